@@ -14,6 +14,7 @@ failed fold).
 from __future__ import annotations
 
 import itertools
+from fractions import Fraction
 
 from .. import algebra as A
 from .. import opmodel as O
@@ -104,7 +105,27 @@ def _job(kw):
                     excepted += 1
                 else:
                     only_massive.append((k, p, sorted(sa - sb)))
-    return ("ok", n, n_nontrivial, only_asy[:3], len(only_asy), only_massive[:3], len(only_massive), excepted)
+    # in the massless limit vector and axial couplings have the same coefficient functions (chirality is conserved): in the FFN0
+    # operator w(q,'VV') and w(q,'AA') - and w(q,'VA'), w(q,'AV') - must multiply exactly the same combination of kernels
+    va_bad, va_n = [], 0
+    for key in sorted(b.keys()):
+        if key[0] > 2 or key[2] or key[3]:
+            continue
+        for p in b.pids:
+            for j in range(R.GRID_N):
+                e = b.entry(key, p, j)
+                if not isinstance(e, A.Rat):
+                    continue
+                ats = e.atoms()
+                for q in (4, 5, 6):
+                    for t1, t2 in (("VV", "AA"), ("VA", "AV")):
+                        a1, a2 = f"w({q}, '{t1}')", f"w({q}, '{t2}')"
+                        if a1 in ats or a2 in ats:
+                            va_n += 1
+                            if not A.equal(A.coeff_of(e, a1), A.coeff_of(e, a2), tol=Fraction(0)):
+                                va_bad.append((key, p, f"{a1} and {a2} multiply different kernel combinations: "
+                                               + A.fmt_diffs(A.difference(A.coeff_of(e, a1), A.coeff_of(e, a2), tol=Fraction(0)), 2)[:200]))
+    return ("ok", n, n_nontrivial, only_asy[:3], len(only_asy), only_massive[:3], len(only_massive), excepted, va_bad[:2], len(va_bad), va_n)
 
 
 def jobs(tier):
@@ -210,6 +231,7 @@ def run(rep, proj, tier):
     outs = sweep.run_cells(_job, js)
     n_cmp = 0
     n_nt = 0
+    n_va = 0
     for kw, o in zip(js, outs):
         label = f"{kw['obs']}|{kw['process']}|NfFF={kw['nfff']}|PTO={kw['pto']}"
         if o[0] == "fold":
@@ -221,7 +243,14 @@ def run(rep, proj, tier):
             else:
                 rep.undecided("C08.support", "", label, f"{side} not foldable: {msg}")
             continue
-        _, n, nt, oa, noa, om, nom, exc = o
+        _, n, nt, oa, noa, om, nom, exc, vab, nvab, van = o
+        n_va += van
+        if nvab:
+            k_, p_, txt_ = vab[0]
+            rep.bad("C08.va", "src/yadism/coefficient_functions/asy/kernels.py", f"{kw['obs']}|{kw['process']}|NfFF={kw['nfff']}|PTO={kw['pto']}",
+                    f"{nvab} asymptotic entries treat vector and axial couplings differently, e.g. order {k_} pid {p_}: {txt_}", key="va")
+        elif van:
+            rep.ok("C08.va", "", f"{kw['obs']}|{kw['process']}|NfFF={kw['nfff']}|PTO={kw['pto']}", f"{van} entries: vector and axial weights multiply the same asymptotic kernels")
         if kw["obs"].split("_")[0] in OUT_OF_SCOPE:
             # reported, never alarmed on: the property's quantifier names F2/FL/F3/g1 only
             if noa or nom:
@@ -243,3 +272,4 @@ def run(rep, proj, tier):
     rep.info["nontrivial_slots"] = n_nt
     rep.floor("support cells", len(js), 80)
     rep.floor("non-trivial slots", n_nt, 600)
+    rep.floor("vector/axial entries compared", n_va, 300)
